@@ -5,6 +5,10 @@
 //   {"evaluations":..,"distinct_nontrivial":..,"rule":"..","bound":"..","exhaustive":true,"violations":[{"case":..,"what":..,"input":..,"expected":..,"actual":..}],"samples":[..]}
 // Roles: (a) bounded STAND-IN for functions outside Verus' reach (labelled bounded, never counted as proved),
 //        (b) WITNESS search: a concrete failing input for an obligation Verus could not discharge (replay).
+// `crate::util` as the included libcnb-package sources expect it (the REAL util.rs)
+#[path = "/repo/libcnb-package/src/util.rs"]
+#[allow(dead_code, unreachable_pub)]
+pub mod util;
 mod c01;
 mod c03;
 mod c04;
